@@ -1696,6 +1696,7 @@ func handlerErrorHandling(c *core.Ctx) {
 //     instruction accepted by signals (an error item in a response); the edge of an  err == io.EOF  test is not followed (end of
 //     input is not a failure of the caller's request);
 //   - from the "err == nil" edge a return with a nil error is reachable without passing a signal.
+//
 // An inverted test, a test without consequence and a success path that can only fail are all reported.
 func errorTestPolarity(c *core.Ctx, f *ssa.Function, signals func(ssa.Instruction) bool, lenient ...bool) {
 	p := c.P
@@ -1972,7 +1973,9 @@ func putDecisions(c *core.Ctx, f *ssa.Function) {
 		if !ok || core.Callee(call) == nil || cn(core.Callee(call)) != "JSONDecode" {
 			return
 		}
-		failed := core.NonNilFact(func(v ssa.Value) bool { return v == ssa.Value(call) || core.AnySource(v, func(s ssa.Value) bool { return s == ssa.Value(call) }) })
+		failed := core.NonNilFact(func(v ssa.Value) bool {
+			return v == ssa.Value(call) || core.AnySource(v, func(s ssa.Value) bool { return s == ssa.Value(call) })
+		})
 		good := true
 		n := 0
 		core.Instrs(f, func(j ssa.Instruction) {
@@ -1982,7 +1985,9 @@ func putDecisions(c *core.Ctx, f *ssa.Function) {
 				if !core.ReachableFromEntry(j, core.CutWhere(failed)) {
 					good = false
 				}
-				ok := core.IsNilFact(func(v ssa.Value) bool { return v == ssa.Value(call) || core.AnySource(v, func(s ssa.Value) bool { return s == ssa.Value(call) }) })
+				ok := core.IsNilFact(func(v ssa.Value) bool {
+					return v == ssa.Value(call) || core.AnySource(v, func(s ssa.Value) bool { return s == ssa.Value(call) })
+				})
 				if core.ReachableFromEntry(j, core.CutWhere(ok)) {
 					good = false
 				}
